@@ -118,6 +118,10 @@ type ext struct {
 	crashMode bool
 	dir       string
 	probes    int
+	// part 4: a backend Upload that hangs and then succeeds or fails. Called
+	// after the source was read and before anything is stored; a non-nil error
+	// is the Upload's answer (nothing stored).
+	uploadHook func(id, name string) error
 }
 
 func newExt(dir string, crashMode bool) *ext {
@@ -178,6 +182,11 @@ func (c *fakeClient) Upload(namespace, name string, src io.Reader) error {
 	}
 	if !c.e.alive() {
 		return errDeadProc
+	}
+	if h := c.e.uploadHook; h != nil {
+		if err := h(c.id, name); err != nil {
+			return err
+		}
 	}
 	c.e.mu.Lock()
 	defer c.e.mu.Unlock()
@@ -1170,7 +1179,7 @@ func main() {
 }
 
 func mainT() {
-	vrt.WorkerMain(allCHarnesses())
+	vrt.WorkerMain(append(allCHarnesses(), allWHarnesses()...))
 	run := evid.New("C31", "exploration")
 	run.Rule = "Part 1: explicit-state BFS over all sequences of <= N actions {start/patch/commit (and whole upload) of blob A by two uploaders and of blob B, run a pending write-back task (real executor), backend down/up, advance 90 min (TTI 1h, TTL 2h), cleanup pass (real job body, upload + cache), POST /forcecleanup ttl 0 as owner / ttl 1h as non-owner, restart, closing phase} on a real blobserver.Server + CAStore, per configuration (1 or 2 namespaces with separate backends) x (LRU capacity 1 or unbounded); states deduplicated on disk state + LRU map + tasks + backend + acknowledged set. Oracle after every action: acknowledged blob absent locally => backend of its namespace holds its bytes; closing phase from every state: backend holds every acknowledged blob. distinct = distinct reached states with >= 1 acknowledged upload. Part 2: crash before every mutating FS primitive (and every backend call / task insert) of upload histories, restart on the image, same oracle for the uploads acknowledged before the crash. Part 3 (E1q, testing/synctest bubble): 2 (thorough: also 3) clients upload the SAME blob (same namespace, or two namespaces with separate backends); every HTTP request (start/patch/commit, client protocol of origin/blobclient: a 409 ends the upload as success) runs on its own goroutine against the real Server + CAStore; the write-back manager seam parks every Add (insert in flight) and the explorer chooses when it proceeds and whether it records the task or fails without effect; further actions: one POST /forcecleanup?ttl_hr=0 with the backend up or in an outage (while the blob is cached) and one restart of the origin (while an Add is parked: requests in flight die unanswered, their Add never happens). With 2 clients EVERY order of the enabled requests / parked Adds / forcecleanup / restart with every Add outcome is executed (no deviation bound); with 3 clients (thorough) every order with <= 4 choices that differ from the canonical run-to-completion order. Oracle at every quiescent point: (a) an acknowledged upload has a recorded (namespace, blob) task or its backend holds the blob (otherwise a restart at this point leaves nothing that would ever write it back), (b) acknowledged blob absent locally => backend of its namespace holds it; at the end of every order the closing phase of part 1. distinct (part 3) = outcome classes (how each upload ended, acknowledged set, tasks, backend, cache, overlap/failure flags)."
 	run.Assume("small-scope: 2 blobs, <= 3 upload slots, single-chunk uploads, write-back delay 0, every namespace has a backend")
@@ -1291,6 +1300,7 @@ func mainT() {
 		}
 	}
 	concurrentPart(run, thorough)
+	overlapPart(run, thorough)
 
 	run.Set("executor_task_finder_wired", finderWired.Load())
 	run.Set("crash_images_retry_acknowledged", retryAcked.Load())
